@@ -303,6 +303,36 @@ func rulesC05(cx *Ctx) []Obligation {
 					obs = append(obs, bad(key, desc, "hint output "+out+" reaches no must-executed canonical or n-bit range check: any field element is accepted for it", where))
 				}
 			}
+			// a hint output that the gadget returns is a Goldilocks value determined only modulo p by the
+			// constraints: it must be confined to [0, p); an n-bit check (even n = 64) admits value + p
+			retPaths := map[string]bool{}
+			var collect func(v *Val, d int)
+			collect = func(v *Val, d int) {
+				if v == nil || d > 4 {
+					return
+				}
+				for _, p := range v.Dir {
+					retPaths[strings.TrimSuffix(p, ".Limb")] = true
+				}
+				for _, k := range v.Kids {
+					collect(k, d+1)
+				}
+			}
+			collect(r.Res.Ret, 0)
+			for k := 0; k < hf.rec.HintN; k++ {
+				out := fmt.Sprintf("%s#%d", hf.root, k)
+				if !retPaths[out] {
+					continue
+				}
+				ckey := fmt.Sprintf("C05/R1/%s/out%d-returned-canonical", hn, k)
+				cdesc := "a hint output that the gadget returns as a field element is confined to [0, p) by the canonical range check (a plain n-bit check would also accept value + p)"
+				b := hf.bounds[out]
+				if b != nil && b.Cmp(bigP) < 0 {
+					obs = append(obs, good(ckey, cdesc, hf.sinkAt[out]))
+				} else if _, has := hf.sinkAt[out]; has {
+					obs = append(obs, bad(ckey, cdesc, "the returned hint output is only checked to "+boundDesc(b, hf.symW[out])+", which admits non-canonical values", hf.sinkAt[out]))
+				}
+			}
 			key := fmt.Sprintf("C05/R1/%s/eq", hn)
 			desc := "an equality that executes on every path ties all hint outputs to all hint inputs"
 			if hf.tying == nil {
@@ -814,4 +844,11 @@ func rulesC09Function(cx *Ctx) []Obligation {
 		obs = append(obs, undecided("C09/O9.2/floor", "the quotient widths used by the Goldilocks Poseidon s-box are found", "no constant width reaches the witnessed reduction from package poseidon"))
 	}
 	return obs
+}
+
+func boundDesc(b *big.Int, sym string) string {
+	if b != nil {
+		return fmt.Sprintf("%d bits", b.BitLen())
+	}
+	return "a width given by parameter " + sym
 }
